@@ -347,6 +347,19 @@ fn gen_c03(ch: &mut Choices) -> Plan {
             plan.cfg.handle_qos_after_disconnect = Some(ch.choose(3) as u8);
         }
     }
+    if ver == Ver::V5 && ch.chance(1, 5) {
+        // acknowledgements with optional properties (a user property, a reason string) towards a peer whose
+        // Maximum Packet Size lets all, some or none of them through: what does not fit is dropped, what is
+        // written is still one well-formed packet
+        plan.cfg.ack_props = Some((*ch.pick(&[3u16, 40, 200]), *ch.pick(&[2u16, 30])));
+        let m = *ch.pick(&[12u32, 20, 30, 64, 300]);
+        if role.is_server() {
+            plan.peer.connect.props.push((39, PropVal::U32(m)));
+        } else {
+            plan.peer.connack_props.push((39, PropVal::U32(m)));
+        }
+        plan.tags.push(format!("peer-max-packet:{m}"));
+    }
     // KNOWN FINDING (C03/wrong-ack-type/C?/q2-PUBACK): the client role answers an inbound QoS 2
     // PUBLISH with PUBACK. Half of the client-role runs avoid inbound QoS 2 so that the finding
     // does not blind the rest of the family.
